@@ -56,6 +56,9 @@ pub struct Config {
     pub serial0: u32,
     /// which M1 alphabet the BFS uses from this root: 0 = full, 1 = serial-focused
     pub serial_focus: bool,
+    /// the zone is signed (NSEC) and served by a DNSSEC-enabled handler: every accepted changing
+    /// update runs the real secure_zone()
+    pub dnssec: bool,
 }
 
 fn base(serial: u32) -> Vec<Rr> {
@@ -65,27 +68,50 @@ fn base(serial: u32) -> Vec<Rr> {
 pub fn configs(thorough: bool) -> Vec<Config> {
     let mut v = vec![];
     // Z0: the minimal zone
-    v.push(Config { name: "Z0:minimal/serial=1".into(), zone: base(1), serial0: 1, serial_focus: false });
+    v.push(Config { name: "Z0:minimal/serial=1".into(), zone: base(1), serial0: 1, serial_focus: false, dnssec: false });
     // Z1: multi-valued sets, a CNAME, a name below a name
     let mut z1 = base(1);
     z1.extend([ns("z.", 60, "n2.o."), a("a.z.", 60, 1), a("a.z.", 60, 2), txt("a.z.", 60, "t"), cname("b.z.", 60, "a.z."), a("a.a.z.", 60, 1)]);
-    v.push(Config { name: "Z1:rich/serial=1".into(), zone: z1, serial0: 1, serial_focus: false });
+    v.push(Config { name: "Z1:rich/serial=1".into(), zone: z1, serial0: 1, serial_focus: false, dnssec: false });
     // Z2: a delegation with glue below it, single-valued sets
     let mut z2 = base(1);
     z2.extend([ns("a.z.", 60, "n1.o."), a("a.a.z.", 60, 1), a("b.z.", 60, 1)]);
-    v.push(Config { name: "Z2:delegation/serial=1".into(), zone: z2, serial0: 1, serial_focus: false });
+    v.push(Config { name: "Z2:delegation/serial=1".into(), zone: z2, serial0: 1, serial_focus: false, dnssec: false });
     // Z3: a wildcard next to the universe's names
     let mut z3 = base(1);
     z3.extend([txt("*.z.", 60, "t"), a("a.z.", 60, 1)]);
-    v.push(Config { name: "Z3:wildcard/serial=1".into(), zone: z3, serial0: 1, serial_focus: false });
+    v.push(Config { name: "Z3:wildcard/serial=1".into(), zone: z3, serial0: 1, serial_focus: false, dnssec: false });
     // serial regimes: half-way and just below the wrap
     for s in [0, (1u32 << 31) - 1, u32::MAX - 1] {
         let mut z = base(s);
         z.push(a("a.z.", 60, 1));
-        v.push(Config { name: format!("Z0+a:serial={s}"), zone: z, serial0: s, serial_focus: true });
+        v.push(Config { name: format!("Z0+a:serial={s}"), zone: z, serial0: s, serial_focus: true, dnssec: false });
+    }
+    // the DNSSEC-enabled sub-grid: minimal, rich and delegation zones, signed
+    let mut d1 = base(1);
+    d1.extend([ns("z.", 60, "n2.o."), a("a.z.", 60, 1), a("a.z.", 60, 2), txt("a.z.", 60, "t"), cname("b.z.", 60, "a.z."), a("a.a.z.", 60, 1)]);
+    let mut d2 = base(1);
+    d2.extend([ns("a.z.", 60, "n1.o."), a("a.a.z.", 60, 1), a("b.z.", 60, 1)]);
+    for (name, zone) in [("D0:minimal/signed", base(1)), ("D1:rich/signed", d1), ("D2:delegation/signed", d2)] {
+        v.push(Config { name: name.into(), zone, serial0: 1, serial_focus: false, dnssec: true });
     }
     let _ = thorough;
     v
+}
+
+/// `rr` with its owner name spelled with the given labels (case variants of the stored names).
+fn owner_cased(mut rr: Rr, labels: &[&str]) -> Rr {
+    rr.name = labels.iter().map(|l| l.as_bytes().to_vec()).collect();
+    rr
+}
+
+/// RDATA of NS/CNAME: the target name spelled with the given labels.
+fn target_cased(mut rr: Rr, labels: &[&str]) -> Rr {
+    let l: vref::wire::Labels = labels.iter().map(|l| l.as_bytes().to_vec()).collect();
+    let mut rd = vec![];
+    vref::wire::emit_name(&l, &mut rd);
+    rr.rdata = rd;
+    rr
 }
 
 pub fn prereq_atoms() -> Vec<AtomSpec> {
@@ -114,6 +140,17 @@ pub fn prereq_atoms() -> Vec<AtomSpec> {
     v.push(AtomSpec::plain(empty("x.o.", ru::T_ANY, ru::CLASS_ANY, 0))); // out of zone
     v.push(AtomSpec::plain(empty("x.o.", ru::T_ANY, ru::CLASS_NONE, 0)));
     v.push(AtomSpec::plain(a("x.o.", 0, 1)));
+    // names spelled in another case than the stored ones (RFC 2136 1.1.2: compared case-insensitively)
+    v.push(AtomSpec::plain(owner_cased(empty("a.z.", ru::T_ANY, ru::CLASS_ANY, 0), &["A", "Z"])));
+    v.push(AtomSpec::plain(owner_cased(empty("a.z.", ru::T_ANY, ru::CLASS_NONE, 0), &["A", "Z"])));
+    v.push(AtomSpec::plain(owner_cased(empty("a.z.", ru::T_A, ru::CLASS_ANY, 0), &["A", "z"])));
+    v.push(AtomSpec::plain(owner_cased(empty("a.z.", ru::T_A, ru::CLASS_NONE, 0), &["a", "Z"])));
+    v.push(AtomSpec::plain(owner_cased(a("a.z.", 0, 1), &["A", "Z"])));
+    v.push(AtomSpec::plain(target_cased(cname("b.z.", 0, "a.z."), &["A", "Z"])));
+    v.push(AtomSpec::plain(target_cased(ns("z.", 0, "n1.o."), &["N1", "O"])));
+    // a foreign class with the metavalue forms
+    v.push(AtomSpec::plain(empty("a.z.", ru::T_ANY, ru::CLASS_CH, 0)));
+    v.push(AtomSpec::plain(empty("a.z.", ru::T_A, ru::CLASS_CH, 0)));
     v
 }
 
@@ -166,6 +203,21 @@ pub fn update_atoms() -> Vec<AtomSpec> {
     v.push(AtomSpec::plain(a("x.o.", 60, 1))); // out of zone
     v.push(AtomSpec::plain(empty("x.o.", ru::T_ANY, ru::CLASS_ANY, 0)));
     v.push(AtomSpec::plain(with_class(a("x.o.", 0, 1), ru::CLASS_NONE)));
+    // names spelled in another case than the stored ones
+    v.push(AtomSpec::plain(owner_cased(a("a.z.", 60, 2), &["A", "z"])));
+    v.push(AtomSpec::plain(owner_cased(a("a.z.", 60, 1), &["A", "Z"])));
+    v.push(AtomSpec::plain(owner_cased(with_class(a("a.z.", 0, 1), ru::CLASS_NONE), &["A", "Z"])));
+    v.push(AtomSpec::plain(owner_cased(empty("a.z.", ru::T_A, ru::CLASS_ANY, 0), &["a", "Z"])));
+    v.push(AtomSpec::plain(owner_cased(empty("a.z.", ru::T_ANY, ru::CLASS_ANY, 0), &["A", "Z"])));
+    v.push(AtomSpec::plain(owner_cased(empty("z.", ru::T_NS, ru::CLASS_ANY, 0), &["Z"])));
+    v.push(AtomSpec::plain(owner_cased(empty("z.", ru::T_ANY, ru::CLASS_ANY, 0), &["Z"])));
+    v.push(AtomSpec::plain(target_cased(cname("b.z.", 60, "a.z."), &["A", "Z"])));
+    v.push(AtomSpec::plain(target_cased(with_class(cname("b.z.", 0, "a.z."), ru::CLASS_NONE), &["A", "Z"])));
+    v.push(AtomSpec::plain(target_cased(ns("z.", 60, "n1.o."), &["N1", "O"])));
+    v.push(AtomSpec::plain(target_cased(with_class(ns("z.", 0, "n2.o."), ru::CLASS_NONE), &["N2", "o"])));
+    // a foreign class with the metavalue forms
+    v.push(AtomSpec::plain(empty("a.z.", ru::T_A, ru::CLASS_CH, 0)));
+    v.push(AtomSpec::plain(empty("a.z.", ru::T_ANY, ru::CLASS_CH, 0)));
     v
 }
 
